@@ -95,6 +95,9 @@ static void e2e_load(unsigned ib, uint64_t n) {
     /* strings: the payload is not there; no allocation of the declared length may be attempted on a truncated size */
     if (it && n > 3) vh_violation("huge-length-accepted", "a string declaring %llu bytes was decoded from a 12-byte input", (unsigned long long)n);
     if (TA.max_request > BIG && (u128)TA.max_request < (u128)n) vh_violation("under-allocation-requested", "string head declaring %llu bytes: allocator asked for %llu", (unsigned long long)n, (unsigned long long)TA.max_request);
+    /* only 3 payload bytes are present: an allocation of the declared length means the "is the payload there?" arithmetic wrapped */
+    if (n > 3 && TA.max_request > BIG) vh_violation("proceeded-on-truncated-size", "string head declaring %llu bytes in a 12-byte input: the decoder went on to request %llu bytes although the payload is not there (length check wrapped)", (unsigned long long)n, (unsigned long long)TA.max_request);
+    if (n > 3 && !it && r.error.code != CBOR_ERR_NOTENOUGHDATA) vh_violation("proceeded-on-truncated-size", "string head declaring %llu bytes in a 12-byte input failed with code %d instead of NOTENOUGHDATA", (unsigned long long)n, (int)r.error.code);
   }
   if (it) cbor_decref(&it);
   free(ex);
